@@ -9,7 +9,7 @@
    [E pid (paid S)] is the list of (stage, amount) entries of all payments made
    for proposal pid so far (ghost log of accepted withdrawals). *)
 From Coq Require Import ZArith Bool List Permutation.
-From ELA Require Import model.C29_Budget proof.C29_Budget proof.C29_Inv proof.C29_Thm.
+From ELA Require Import model.C29_Budget proof.C29_Budget proof.C29_Inv proof.C29_Thm proof.C29_Acc.
 Import ListNotations.
 Local Open Scope Z_scope.
 
@@ -82,4 +82,38 @@ Example C29_nonvacuous :
      [TWithdraw 1 100000] = true /\
   block_ok ex_cfg (init 1000000 900000 0 1000) [TReg 1 [Build_budget 2 1 60000]; TReg 2 [Build_budget 2 1 60000]] = false /\
   block_ok ex_cfg (init 1000000 900000 0 1000) [TReg 1 [Build_budget 2 1 60000]] = true.
+Proof. vm_compute. repeat split; reflexivity. Qed.
+
+(* No double release: CRCCommitteeUsedAmount never falls below the initial
+   amount plus what the proposals still bind (every budget of a live proposal,
+   the stages that became withdrawable of a terminated / finished one, nothing
+   of a cancelled one) — the invariant the oracle signature C29:used-undercount
+   tests on the implementation. *)
+Theorem C29_used_covers_commitments : forall C sortf, (forall l, Permutation l (sortf l)) ->
+  forall stage used0 comm h0 blocks,
+  used0 + committed (run C sortf (init stage used0 comm h0) blocks) <=
+  used (run C sortf (init stage used0 comm h0) blocks).
+Proof. exact used_covers_commitments. Qed.
+Print Assumptions C29_used_covers_commitments.
+
+(* The reserve covers the outstanding withdrawable amounts: what owners of
+   terminated / finished proposals can still withdraw plus every unpaid stage of
+   live proposals is at most CRCCommitteeUsedAmount (C29:reserve-below-outstanding,
+   within one council term). *)
+Theorem C29_reserve_covers_outstanding : forall C sortf, (forall l, Permutation l (sortf l)) ->
+  forall stage used0 comm h0 blocks, 0 <= used0 ->
+  reserve (run C sortf (init stage used0 comm h0) blocks) <=
+  used (run C sortf (init stage used0 comm h0) blocks).
+Proof. exact reserve_covered. Qed.
+Print Assumptions C29_reserve_covers_outstanding.
+
+(* Non-vacuity: after the example run (imprest and stage 1 paid, final stage
+   open) the proposal binds 600000 and 300000 must stay reserved; terminating
+   it releases exactly the final stage, and a second termination in the same
+   block — which would release it twice — is rejected. *)
+Example C29_accounting_nonvacuous :
+  committed ex_S = 600000 /\ reserve ex_S = 300000 /\ used ex_S = 600000 /\
+  (let S' := step ex_cfg go_sort ex_S (100, [TTrack 1 3 0]) in
+   committed S' = 300000 /\ used S' = 300000 /\ reserve S' = 0) /\
+  block_ok ex_cfg ex_S [TTrack 1 3 0; TTrack 1 3 0] = false.
 Proof. vm_compute. repeat split; reflexivity. Qed.
